@@ -87,6 +87,11 @@ def originT (r0 e0 : SE3 α) : Sim3 α :=
 inductive AlignMode | none | origin | svd
 deriving DecidableEq, Repr, Inhabited
 
+/-- option handling of `ape` / `rpe`: `if align or scale: svdstf(…, with_scale=scale) elif origin: first pose else: identity`
+— returns the alignment mode and the `with_scale` flag handed to `svdstf` -/
+def modeOfFlags (align scale origin : Bool) : AlignMode × Bool :=
+  if align || scale then (.svd, scale) else if origin then (.origin, false) else (.none, false)
+
 /-- the transform applied to the estimate (`identity_Sim3`, `originT`, or `alignFn est_trans ref_trans`) -/
 def transOf (alignFn : List (Vec3 α) → List (Vec3 α) → Sim3 α) (mode : AlignMode)
     (rp ep : List (SE3 α)) : Sim3 α :=
